@@ -374,9 +374,17 @@ impl Emu {
         // outside the CPU core uses (the `u8:` control line, the MES services): an implementation that keeps
         // copies of memory (prefetched words, decoded instructions, cached vectors) must notice these writes, and
         // one that does is not accused of staleness the harness itself created by poking the arrays.
-        if !is_peripheral_reg(a) {
-            if raw_get(&self.cpu.bus, a) != Some(v) && self.cpu.bus.write(a, v).is_err() {
-                raw_set(&mut self.cpu.bus, a, v);
+        // (the 8-bit timer's registers too: the timer learns its enable bits and clock from the write path; the
+        // ports keep the array path - their write path announces outputs and C16 drives it explicitly)
+        let timer = (0xffff80..=0xffff99).contains(&a);
+        if !is_peripheral_reg(a) || timer {
+            if raw_get(&self.cpu.bus, a) != Some(v) {
+                if self.cpu.bus.write(a, v).is_err() {
+                    raw_set(&mut self.cpu.bus, a, v);
+                }
+                if timer {
+                    self.dirty_hidden = true;
+                }
             }
         } else {
             raw_set(&mut self.cpu.bus, a, v);
